@@ -194,13 +194,20 @@ def run_for_property(prop, tier, scratch, seed=0, only=None):
               # by source mtimes only (its build directory does not depend on the overlay's path): a copy of a tree whose
               # files are older than the last build would be taken as up to date and verified against the PREVIOUS tree's
               # artifacts.  Stamp every source of this overlay with the current time, under the lock, right before the build.
-              _now = time.time()
-              for _root, _dirs, _files in os.walk(ov):
-                  for _f in _files:
-                      try:
-                          os.utime(os.path.join(_root, _f), (_now, _now))
-                      except OSError:
-                          pass
+              # (Not needed when the last build in this directory was of exactly this overlay content: recorded in a stamp
+              # file that is removed before any other build and written only after cargo kani compiled without error.)
+              _stamp = os.path.join(target, ".last-overlay-digest")
+              _same = os.path.exists(_stamp) and open(_stamp).read().strip() == digest
+              if not _same:
+                  if os.path.exists(_stamp):
+                      os.remove(_stamp)
+                  _now = time.time()
+                  for _root, _dirs, _files in os.walk(ov):
+                      for _f in _files:
+                          try:
+                              os.utime(os.path.join(_root, _f), (_now, _now))
+                          except OSError:
+                              pass
               env = dict(os.environ, CARGO_NET_OFFLINE="true", CARGO_TARGET_DIR=target)
               jobs = min(len(todo), int(os.environ.get("VERIF_KANI_JOBS", "8")))
               cmd = kani_cmd([h["name"] for h in todo], jobs)
@@ -214,6 +221,8 @@ def run_for_property(prop, tier, scratch, seed=0, only=None):
               if "error: could not compile" in txt or "error[E" in txt:
                   errs = [ln for ln in txt.split("\n") if ln.startswith("error")][:5]
                   raise Inconclusive("overlay does not compile under Kani (changed interface?): %s" % " | ".join(errs))
+              if "Checking harness" in txt:      # compiled and reached verification: the artifacts are this overlay's
+                  open(_stamp, "w").write(digest)
               parsed = parse_terse(pr.stdout)
               for h in todo:
                   hit = [v for k, v in parsed.items() if k.split("::")[-1] == h["name"]]
@@ -303,6 +312,9 @@ def replay_counterexample(o, scratch_root="/dev/shm"):
         os.makedirs(CACHE, exist_ok=True)
         with open(os.path.join(CACHE, "kani.lock"), "w") as _lk:
             fcntl.flock(_lk, fcntl.LOCK_EX)     # same lock and same freshness stamp as run_for_property
+            _stamp = os.path.join(target, ".last-overlay-digest")
+            if os.path.exists(_stamp):
+                os.remove(_stamp)               # after this build the directory no longer holds the recorded overlay
             _now = time.time()
             for _root, _dirs, _files in os.walk(ov):
                 for _f in _files:
